@@ -6,6 +6,8 @@ structure DState where
   p : PState := {}
   mf : MF := {}
   port : Port := {}
+  mobj : Option MObj := none
+  heap : Heap := []
   multi : Multi := {}
 
 def words (line : String) : List String :=
@@ -167,6 +169,44 @@ def handle (st : DState) (line : String) : DState × String :=
         match parseNat? k, groups.mapM parseMsg with
         | some k, some ms => (st, s!"{completeWithin ms k} " ++ showExcept showMsgs (parseAll ((ms.flatMap encode).take k)))
         | _, _ => (st, "bad-op")
+      | _ => (st, "bad-op")
+    | "mo" =>
+      let run (op : MOp) : DState × String := let (c, e) := mstep st.mobj op; ({ st with mobj := c }, showObjState c e)
+      match args with
+      | ["reset"] => ({ st with mobj := none }, "ok")
+      | "new" :: ty :: kws => match kws.mapM parseKw with
+        | some kw => run (.construct ty kw) | none => (st, "bad-op")
+      | "copy" :: kws =>
+        let tov := (kws.find? (·.startsWith "type=")).map (fun s => (s.drop 5).toString)
+        match (kws.filter (fun s => !s.startsWith "type=")).mapM parseKw with
+        | some kw => run (.copy tov kw) | none => (st, "bad-op")
+      | ["set", n, v] => match parsePyVal v with | some pv => run (.set n pv) | none => (st, "bad-op")
+      | ["del", n] => run (.del n)
+      | ["iadd", v] => match parsePyVal v with | some pv => run (.iadd pv) | none => (st, "bad-op")
+      | _ => (st, "bad-op")
+    | "h" =>
+      let run (op : HOp) : DState × String := let (h', o) := hstep st.heap op; ({ st with heap := h' }, o.show)
+      let optRef (s : String) : Option (Option Nat) := if s == "-" then some none else (parseNat? s).map some
+      let splitTy (kws : List String) : Option String × List String :=
+        ((kws.find? (·.startsWith "type=")).map (fun s => (s.drop 5).toString), kws.filter (fun s => !s.startsWith "type="))
+      match args with
+      | ["reset"] => ({ st with heap := [] }, "ok")
+      | ["dump"] => (st, " | ".intercalate (st.heap.map HObj.show))
+      | "newmsg" :: ty :: kws => match kws.mapM parseKw with | some kw => run (.newMsg ty kw) | none => (st, "bad-op")
+      | "newmeta" :: ty :: kws => match kws.mapM parseKw with | some kw => run (.newMeta ty kw) | none => (st, "bad-op")
+      | ["newunk", tb, d, t] => match parsePyVal tb, parsePyVal d, parsePyVal t with
+        | some a, some b, some c => run (.newUnk a b c) | _, _, _ => (st, "bad-op")
+      | "copy" :: i :: kws => let (tov, rest) := splitTy kws
+        match parseNat? i, rest.mapM parseKw with
+        | some i, some kw => run (.copy i tov kw) | _, _ => (st, "bad-op")
+      | ["freeze", i] => match optRef i with | some r => run (.freeze r) | none => (st, "bad-op")
+      | ["thaw", i] => match optRef i with | some r => run (.thaw r) | none => (st, "bad-op")
+      | ["set", i, n, v] => match parseNat? i, parsePyVal v with
+        | some i, some pv => run (.set i n pv) | _, _ => (st, "bad-op")
+      | ["del", i, n] => match parseNat? i with | some i => run (.del i n) | none => (st, "bad-op")
+      | ["hash", i] => match parseNat? i with | some i => run (.hash i) | none => (st, "bad-op")
+      | ["eq", a, b] => match parseNat? a, parseNat? b with
+        | some a, some b => run (.eq a b) | _, _ => (st, "bad-op")
       | _ => (st, "bad-op")
     | "preset" => ({ st with p := {} }, "ok")
     | "pfeed" => match parseInts args with
